@@ -6,6 +6,7 @@ from unittest import mock
 from props import shellcommon as sc
 from sim.scenarios import Pair, scripted
 from sim.world import LoopEscape
+from props import hdl
 from vlib import core
 from vlib.core import Failure
 
@@ -154,6 +155,13 @@ def run_one(ctx, name, ips, conf, scen, seed):
 def plan(ctx):
     out = []
     fam = conf_family(ctx)
+    # negotiations that need something specific: a CHILD_SA with PFS whose first KE group is refused
+    # (INVALID_KE_PAYLOAD retry) after an IKE_SA rekey that was postponed with TEMPORARY_FAILURE; crossing CHILD_SA
+    # creations with PFS (each side answers the other's request while its own is outstanding)
+    out.append(('child_pfs_modp_retry', None, {'child_dh': ('15', '14'), 'child_dh_b': ('14',)}, 'postponed_rekey_then_child'))
+    out.append(('child_pfs_modp_retry', None, {'child_dh': ('15', '14'), 'child_dh_b': ('14',)}, 'new_child'))
+    out.append(('child_pfs_modp', None, {'child_dh': ('14',)}, 'crossing_children'))
+    out.append(('child_pfs_ecp', None, {'child_dh': ('ecp256',)}, 'crossing_children'))
     for name, ips, conf in fam:
         scens = SCEN if (not ctx.quick() or name in ('default', 'sha512_ecp384_pfs')) else ['handshake', 'rekey_child',
                                                                                           'rekey_ike']
@@ -178,7 +186,7 @@ def correspond(ctx):
         fails.append(Failure('correspondence', 'mirror:model-vs-code',
                              f'{name}/{scen}: NEWSA parameters {cases[gi][1]} / model {model_out[-300:]}',
                              {'conf': name, 'scenario': scen, 'seed': seed}))
-    return fails
+    return fails + hdl.tie(ctx)
 
 
 def oracle(ctx, deep):
@@ -194,9 +202,9 @@ def oracle(ctx, deep):
 
 
 def replay(ctx, obj):
-    for name, ips, conf in conf_family(ctx):
-        if name == obj.get('conf'):
-            return run_one(ctx, name, ips, conf, obj['scenario'], obj['seed'])[0]
+    for name, ips, conf, scen in plan(ctx):
+        if name == obj.get('conf') and scen == obj.get('scenario'):
+            return run_one(ctx, name, ips, conf, scen, obj['seed'])[0]
     return []
 
 
@@ -208,7 +216,7 @@ CHECK = core.Check(
          'successful negotiations (initial exchange, additional CHILD_SA from either side, CHILD_SA rekey from either '
          'side, IKE_SA rekey from either side, negotiations on the rekeyed successor); every Xfrm.create_child_sa call is '
          'one case of the wiring correspondence (interned values); the oracle compares the two kernels record by record',
-    trusted_base=sc.TRUSTED + ['Diffie-Hellman is an oracle (OpenSSL): commutativity is a hypothesis of C01_ike_keys_agree; '
+    trusted_base=sc.TRUSTED + hdl.TRUSTED + ['Diffie-Hellman is an oracle (OpenSSL): commutativity is a hypothesis of C01_ike_keys_agree; '
                                'that the key derivation is the RFC one is C04'],
     assumptions=['the model kernel stores exactly what the NEWSA request says; lifetimes (local jitter) are not part of '
                  'the mirror relation'],
